@@ -236,7 +236,15 @@ func Note(format string, a ...any) {
 	res.Notes = append(res.Notes, s)
 }
 
-// Incomplete records that a sub-check could not complete (inconclusive, not a violation).
+// Inconclusive records that the run as a whole says too little to be reported as "held": the driver
+// exits 2 (never a violation). Incomplete (below) only notes that single cases were dropped.
+func Inconclusive(format string, a ...any) {
+	Incomplete("FATAL: "+format, a...)
+}
+
+var dropped int // cases dropped for environment / harness reasons (guarded by mu)
+
+// Incomplete records that a case or sub-check could not complete (a note in the evidence, not a violation).
 func Incomplete(format string, a ...any) {
 	mu.Lock()
 	defer mu.Unlock()
@@ -485,16 +493,29 @@ func (s *Sub[C]) Once(c C) *Failure {
 		f = s.safeRun(c, o)
 		if f != nil && isHarnessSig(f.Sig) {
 			Incomplete("%s: harness failure persisted (%s): %.300s / %.300s", s.Name, f.Sig, first, f.What)
+			noteDrop()
 			o.Skip = true
 			f = nil
 		}
 	}
 	if f != nil && netx.IsEnv(f.What) {
 		Incomplete("%s: sandbox resource exhaustion persisted over %d retries: %.300s", s.Name, len(envWaits), f.What)
+		noteDrop()
 		o.Skip = true
 		f = nil
 	}
 	return s.account(c, o, f)
+}
+
+// noteDrop counts a dropped case; many of them make the run inconclusive.
+func noteDrop() {
+	mu.Lock()
+	dropped++
+	n := dropped
+	mu.Unlock()
+	if n == 4 {
+		Inconclusive("%d cases had to be dropped for environment / harness reasons", n)
+	}
 }
 
 func isHarnessSig(sig string) bool {
@@ -526,12 +547,23 @@ func (s *Sub[C]) Enumerate(t *testing.T, exhaustive bool, gen func(yield func(C)
 func (s *Sub[C]) Check(t *testing.T, n int, draw func(*rapid.T) C) {
 	t.Helper()
 	flag.Set("rapid.checks", strconv.Itoa(n))
+	ran := 0
 	rapid.Check(t, func(rt *rapid.T) {
 		c := draw(rt)
+		ran++
 		if f := s.Once(c); f != nil {
 			rt.Fatalf("%s: %s: %s", s.Name, f.Sig, f.What)
 		}
 	})
+	// rapid stops generating when the test binary's deadline (minus its shrink allowance) comes near and
+	// still reports success: an exploration that was cut short is inconclusive, not a pass
+	if !t.Failed() && ran < n {
+		if ran < n/4 {
+			Inconclusive("%s: rapid stopped after %d of %d cases (deadline of the test binary)", s.Name, ran, n)
+		} else {
+			Incomplete("%s: rapid stopped after %d of %d cases (deadline of the test binary)", s.Name, ran, n)
+		}
+	}
 }
 
 // CheckSeeded is Check with a seed salt, so that several Check calls in one
